@@ -53,7 +53,11 @@ val map : ('a1 -> 'a2) -> 'a1 list -> 'a2 list
 
 val fold_left : ('a1 -> 'a2 -> 'a1) -> 'a2 list -> 'a1 -> 'a1
 
+val fold_right : ('a2 -> 'a1 -> 'a1) -> 'a1 -> 'a2 list -> 'a1
+
 val existsb : ('a1 -> bool) -> 'a1 list -> bool
+
+val forallb : ('a1 -> bool) -> 'a1 list -> bool
 
 val filter : ('a1 -> bool) -> 'a1 list -> 'a1 list
 
@@ -153,11 +157,24 @@ module Z :
   val log2_up : z -> z
  end
 
+type ascii =
+| Ascii of bool * bool * bool * bool * bool * bool * bool * bool
+
+val eqb0 : ascii -> ascii -> bool
+
+type string =
+| EmptyString
+| String of ascii * string
+
+val eqb1 : string -> string -> bool
+
 val lex_compare : z list -> z list -> comparison
 
 val lex_ltb : z list -> z list -> bool
 
 val lex_leb : z list -> z list -> bool
+
+val lex_eqb : z list -> z list -> bool
 
 val be_bytes : nat -> z -> z list
 
@@ -440,6 +457,12 @@ val db_scan_range :
 
 val db_scan_from_pinned : db -> z list -> bool -> (z list * z list) list res
 
+val ev_allocs : ev -> nat
+
+val db_insert_allocs : db -> z list -> z list -> nat res
+
+val db_remove_allocs : db -> z list -> nat res
+
 type tid = nat
 
 val w_is_free : z -> bool
@@ -543,3 +566,117 @@ val wait_of : (ptr * tid0 list) list -> ptr -> tid0 list
 val pending : qstate -> ptr list
 
 val registered_count : qstate -> z
+
+type lop =
+| LGet of z list
+| LInsert of z list * z list
+| LRemove of z list
+
+type lres =
+| LVal of z list option
+| LBool of bool
+
+type call = { c_op : lop; c_res : lres; c_inv : nat; c_ret : nat }
+
+type smap = (z list * z list) list
+
+val s_get : z list -> smap -> z list option
+
+val s_del : z list -> smap -> smap
+
+val s_apply : smap -> lop -> smap * lres
+
+val lres_eqb : lres -> lres -> bool
+
+val seq_legal : smap -> call list -> bool
+
+val rt_ok : call list -> bool
+
+val nodupb : nat list -> bool
+
+val pick : call list -> nat list -> call list option
+
+val lin_ok : smap -> call list -> nat list -> bool
+
+type pexpr =
+| PArg
+| POther
+| PSelf
+| PExchangeOther
+| PInc
+| PDec
+| PAddN
+| PSubN
+
+type pstmt =
+| PInit of pexpr
+| PSet of pexpr
+| PReg
+| PUnreg
+| PSelfGuard
+| PRetSelf
+| PCopyToResult
+| PCallSelf of string
+| PCallResult of string
+| PRetResult
+| PRetPtr
+| PRetDeref
+| PRetIndex
+| PRetBin of string
+| PRetOtherPlusN
+| POtherStmt of string
+
+val find_pm : (string * pstmt list) list -> string -> pstmt list option
+
+type oid = nat
+
+type pstate = { vals : (oid * z) list; reg : z list }
+
+val lookup : oid -> (oid * z) list -> z option
+
+val update : oid -> z -> (oid * z) list -> (oid * z) list
+
+val remove_obj : oid -> (oid * z) list -> (oid * z) list
+
+val remove_one : z -> z list -> z list
+
+type pop =
+| OpCtorPtr of oid * z
+| OpCtorDefault of oid
+| OpCtorCopy of oid * oid
+| OpCtorMove of oid * oid
+| OpAssignCopy of oid * oid
+| OpAssignMove of oid * oid
+| OpPreInc of oid
+| OpPreDec of oid
+| OpPostInc of oid * oid
+| OpPostDec of oid * oid
+| OpAddAssign of oid * z
+| OpSubAssign of oid * z
+| OpAdd of oid * oid * z
+| OpSub of oid * oid * z
+| OpDtor of oid
+
+val eval : pexpr -> z -> z -> z -> z
+
+val run :
+  (string * pstmt list) list -> nat -> pstmt list -> oid -> oid option -> z
+  -> oid -> pstate -> pstate option
+
+val call0 :
+  (string * pstmt list) list -> string -> oid -> oid option -> z -> oid ->
+  pstate -> pstate option
+
+val pstep : (string * pstmt list) list -> pstate -> pop -> pstate option
+
+val fresh : oid -> pstate -> bool
+
+val live : oid -> pstate -> bool
+
+val pop_ok : pstate -> pop -> bool
+
+val pinit : pstate
+
+val quiescent_allowed : pstate -> bool
+
+val ptr_methods : (string * pstmt list) list
